@@ -162,6 +162,7 @@ static void judge_forward_dec(Ctx& ctx, double lat, double lon, int setzone, boo
     if (d.accept) {
       // the library has two extra early rejections (dlon > 60 for UTM, |lat| < 70 for UPS) that are documented as redundant
       bool nanin = std::isnan(lat) || std::isnan(lon) || std::isinf(lon);
+      if (nanin && d.zone == spec::UPS && std::fabs(lat) < 70) return;      // finite latitude outside the UPS area: legitimate range error
       ctx.viol(nanin ? "nan:C04/forward/forced-zone-throws-on-nan" : "range:C04/forward/rejected-although-inside-documented-rectangle", cls, J(in).str("what", o.what).i("zone", d.zone).f("x", d.x).f("y", d.y));
     }
     return;
@@ -654,6 +655,7 @@ static void sec_nan(Ctx& ctx, uint64_t idx) {
     J in = J().f("lat", la).f("lon", lo).i("setzone", sz).b("mgrslimits", mgrs);
     if (ctx.want_sample(cls)) ctx.sample(cls, in);
     FwdOut o = call_forward(ctx, la, lo, sz, mgrs, cls, in);
+    if (o.threw && sz == 0 && std::fabs(la) < 70) { ctx.event("nan: forced UPS with a finite latitude more than 20 deg from the pole rejected (legitimate range error)"); return; }
     if (o.threw) { ctx.viol(sz < 0 ? "nan:C04/forward/throws-on-nan" : "nan:C04/forward/forced-zone-throws-on-nan", cls, J(in).str("what", o.what)); return; }
     // pseudo-zone: everything NaN; forced zone: the coordinates must be NaN (gamma / k may legitimately not depend on the NaN argument, e.g. k of UPS on lon)
     if (!(std::isnan(o.x) && std::isnan(o.y) && (sz >= 0 || (std::isnan(o.g) && std::isnan(o.k))))) ctx.viol("nan:C04/forward/finite-output-from-nan-input", cls, J(in).f("x", o.x).f("y", o.y).f("gamma", o.g).f("k", o.k));
@@ -684,7 +686,8 @@ static void sec_nan(Ctx& ctx, uint64_t idx) {
     try { UTMUPS::Transfer(zin, true, x, y, zoneout, true, xo, yo, zo); } catch (const GeographicErr& e) { threw = true; what = e.what(); }
     if (threw) { ctx.viol(zoneout >= 1 ? "nan:C04/transfer/forced-zone-throws-on-nan" : "nan:C04/transfer/throws-on-nan", cls, J(in).str("what", what)); return; }
     if (!(std::isnan(xo) && std::isnan(yo))) ctx.viol("nan:C04/transfer/finite-output-from-nan-input", cls, J(in).f("xout", xo).f("yout", yo).i("zone", zo));
-    if (zoneout < 0 && zo != spec::INVALID) ctx.viol("nan:C04/transfer/zone-not-INVALID", cls, J(in).i("zone", zo));
+    // MATCH means "keep zonein": a legal zonein may be echoed with NaN coordinates; every other pseudo-zone must give INVALID
+    if (zoneout < 0 && zo != spec::INVALID && !(zoneout == spec::MATCH && zo == zin)) ctx.viol("nan:C04/transfer/zone-not-INVALID", cls, J(in).i("zone", zo));
   }
 }
 
